@@ -141,7 +141,8 @@ func RunCheck(c *Check, o Options) int {
 	)
 	for _, p := range c.Parts {
 		n := p.Runs[o.Tier]
-		if o.RunsOverride > 0 {
+		// --runs resizes the parts of the tier; a part the tier does not run stays off.
+		if o.RunsOverride > 0 && n > 0 {
 			n = o.RunsOverride
 		}
 		if n == 0 {
